@@ -22,6 +22,12 @@ NATIVE_PY = "/venv/bin/python"
 REPO = os.environ.get("PYVC_REPO", "/repo")
 
 
+def OUT(sub):
+    """evidence/ and replays/ live next to this file; a self-test against a scratch tree redirects them (PYVC_OUT) so
+    that the committed evidence only ever comes from runs against /repo itself"""
+    return os.path.join(os.environ.get("PYVC_OUT") or HERE, sub)
+
+
 def canon(name):
     name = re.sub(r"path\d+@L\d+\.", "", name)
     name = re.sub(r"\.L\d+\.", ".", name)
@@ -283,7 +289,13 @@ def check_property(prop, tier, seed, jobs, verbose):
         elif res.get("status") == "no-generator":
             exit_undecided = True
             print(f"UNDECIDED {label}: {r['unsupported']} (outside the verifier's subset, no native stand-in)")
-        elif res.get("status") in ("error", "timeout"):
+        elif not CONTRACTS[r["key"]].bounded_only:
+            # the contract of this function is meant to be PROVED; a body that left the verifier's subset and merely
+            # survives the small-scope native run is not decided
+            exit_undecided = True
+            print(f"UNDECIDED {label}: {r['unsupported']} (outside the verifier's subset; the native small-scope run of "
+                  f"{res.get('cases', 0)} cases found nothing, which decides nothing)")
+        elif res.get("status") in ("error", "timeout", "prestate-error"):
             checker_errors.append(f"native stand-in for {label}: {res}")
 
     # ---- failed obligations: refute natively, else report with solver output --------------------------
@@ -324,11 +336,24 @@ def check_property(prop, tier, seed, jobs, verbose):
         if res.get("status") == "refuted":
             path = write_replay(prop, f"X.{kk[0]}.{res['failure']['clause']}",
                                 {"key": kk[0], "ctx": kk[1], "case": res["case"], "failure": res["failure"]})
-            checker_errors.append(f"{kk[0]}: all obligations discharged but the native run of the real code violates "
-                                  f"{res['failure']['clause']} (engine/CPython disagreement or wrong generator); "
-                                  f"input in {path}")
+            if failed or und_keys:
+                # a caller proved against the contract of a callee whose own obligations fail in this run: the native
+                # failure of the caller is a consequence of that violation, not a disagreement of the engine
+                print(f"NOTE: native run of {kk[0]} also violates {res['failure']['clause']} (input in {path}); "
+                      "its obligations rest on the contract of a function that fails in this run")
+            else:
+                checker_errors.append(f"{kk[0]}: all obligations discharged but the native run of the real code violates "
+                                      f"{res['failure']['clause']} (engine/CPython disagreement or wrong generator); "
+                                      f"input in {path}")
         elif res.get("status") in ("error", "timeout"):
             checker_errors.append(f"native run for {kk[0]}: {str(res)[:600]}")
+        elif res.get("status") == "prestate-error" or res.get("prestate_errors"):
+            msg = (f"native run for {kk[0]}: {res.get('prestate_errors', res.get('cases'))} of {res.get('cases')} pre-states could "
+                   f"not be built, the real code raised while running the recipe: {res.get('why')}")
+            if res.get("status") == "prestate-error" and not (failed or und_keys):
+                checker_errors.append(msg)
+            else:
+                print("NOTE:", msg)
         if res.get("status") != "no-generator":
             bounded_recs.append({"name": f"native run of {kk[0]} against its contract", "cases": res.get("cases", 0),
                                  "bound": "generator scope in contracts/gens.py", "status": res.get("status")})
@@ -373,8 +398,8 @@ def check_property(prop, tier, seed, jobs, verbose):
                             "cases enumerated by the labelled bounded stand-ins")
     ev = {"property_id": prop, "tier": tier, "seed": seed, "level": level, "coverage": coverage,
           "assumptions": trusted_base, "wall_s": wall, "violations": violations}
-    os.makedirs(os.path.join(HERE, "evidence"), exist_ok=True)
-    json.dump(ev, open(os.path.join(HERE, "evidence", f"{prop}.json"), "w"), indent=1, default=str)
+    os.makedirs(OUT("evidence"), exist_ok=True)
+    json.dump(ev, open(os.path.join(OUT("evidence"), f"{prop}.json"), "w"), indent=1, default=str)
 
     # ---- verdict ----------------------------------------------------------------------------------------
     print(f"property {prop} tier {tier}: {len(functions)} functions under contract, {discharged}/{obligations} "
@@ -384,14 +409,16 @@ def check_property(prop, tier, seed, jobs, verbose):
             print("   ", f["function"], f"{f['proved']}/{f['obligations']}", f"{f['wall_s']}s")
     for ln in sorted(set(known_lines)):
         print(ln)
-    if checker_errors:
-        for e in checker_errors:
-            print("CHECKER-ERROR:", e)
-        return 3
+    for e in checker_errors:
+        print("CHECKER-ERROR:", e)
     if viol_lines:
-        for ln in viol_lines:
+        # a violation stands on its own obligation (solver result or replayed input); a checker error elsewhere in
+        # the same run is reported next to it but does not hide it
+        for ln in dict.fromkeys(viol_lines):
             print(ln)
         return 1
+    if checker_errors:
+        return 3
     if exit_undecided:
         return 2
     if obligations == 0 and not bounded_recs:
@@ -420,7 +447,7 @@ def match_known(known, prop, obligation, res):
 
 
 def write_replay(prop, obligation, payload):
-    d = os.path.join(HERE, "replays", prop)
+    d = os.path.join(OUT("replays"), prop)
     os.makedirs(d, exist_ok=True)
     fn = re.sub(r"[^A-Za-z0-9_.-]+", "_", obligation)[:150] + ".json"
     path = os.path.join(d, fn)
